@@ -65,35 +65,126 @@ func init() {
 	}
 
 	reg("C06", "C06.1", "T1", "getGroupLabels: a label is copied iff it is in group_by or group_by is '...'; value from the alert; nothing else written", func(o *Ob) {
+		// The obligation is stated over what is written into the result, not over one loop shape:
+		// every entry written is (name, the alert's value of that name) for a name of the alert that
+		// is selected (group_by names it, or group_by is '...'); every selected name of the alert is
+		// written.  Both "for each label of the alert: if selected" and "for each group_by name: if
+		// the alert has it" (with a bulk copy for '...') satisfy it.
 		e := o.E
 		fn := o.Fn("am/dispatch.getGroupLabels")
-		inBy := LRe(`p1\.RouteOpts\.GroupBy\[next\(range\(p0(\.Alert)?\.Labels\)\)#1\]#1`, true)
+		labels := `p0(\.Alert)?\.Labels`
+		groupBy := `p1\.RouteOpts\.GroupBy`
 		all := L("p1.RouteOpts.GroupByAll", true)
+		overLabels := `next\(range\(` + labels + `\)\)`
+		overBy := `next\(range\(` + groupBy + `\)\)`
+		written := map[ssa.Value]bool{}
 		n := 0
-		var mu *ssa.MapUpdate
+		var updates []*ssa.MapUpdate
 		for _, in := range AllInstrs(fn) {
-			if m, ok := in.(*ssa.MapUpdate); ok {
-				n++
-				mu = m
-				o.Site(in, "groupLabels["+e.X(fn, m.Key)+"] = "+e.X(fn, m.Value))
-				o.Guarded(in, "copy-guard", "copying a label into the group labels", inBy, all)
-				k, v := e.X(fn, m.Key), e.X(fn, m.Value)
-				o.Check(strings.HasPrefix(k, "next(range(p0") && strings.HasSuffix(k, "#1") && strings.HasSuffix(v, "#2") && strings.HasPrefix(v, "next(range(p0"), "copy-shape", "the copied entry must be the alert's own label name and value", in)
-				_, fresh := m.Map.(*ssa.MakeMap)
-				o.Check(fresh, "copy-target", "group labels must be built in a fresh map", in)
+			m, ok := in.(*ssa.MapUpdate)
+			if !ok {
+				continue
+			}
+			n++
+			updates = append(updates, m)
+			written[m.Map] = true
+			k, v := e.X(fn, m.Key), e.X(fn, m.Value)
+			o.Site(in, "groupLabels["+k+"] = "+v)
+			_, fresh := m.Map.(*ssa.MakeMap)
+			o.Check(fresh, "copy-target", "group labels must be built in a fresh map", in)
+			switch {
+			case regexpMatch(overLabels+"#1", k):
+				// name from the alert's labels: value must be the same entry's value; selection by group_by lookup or '...'
+				o.Check(regexpMatch(overLabels+"#2", v), "copy-shape", "the copied entry must be the alert's own label name and value", in)
+				o.Guarded(in, "copy-guard", "copying a label into the group labels", LRe(groupBy+`\[`+regexpQuote(k)+`\]#1`, true), all)
+			case regexpMatch(overBy+"#1", k):
+				// name from group_by: value must be the alert's value of that name, and the alert must have it
+				o.Check(regexpMatch(labels+`\[`+regexpQuote(k)+`\](#0)?`, v), "copy-shape", "the copied entry must be the alert's own label name and value", in)
+				o.Guarded(in, "copy-guard", "copying a label the alert may not have into the group labels", LRe(labels+`\[`+regexpQuote(k)+`\]#1`, true))
+			default:
+				o.Fail("copy-shape", "the copied entry must be the alert's own label name and value: key is "+k, in)
 			}
 		}
-		o.Require(n >= 1 && mu != nil, "no-copy", "getGroupLabels copies nothing", nil)
-		l := e.LoopOf(mu)
-		o.Require(l != nil, "loop", "labels are not copied in a loop", mu)
-		coll, _ := e.RangeOver(l)
-		o.Check(strings.HasSuffix(coll, ".Labels") && strings.HasPrefix(coll, "p0"), "range", "every label of the alert must be considered", mu)
-		o.Check(len(e.EarlyExits(l)) == 0, "early-exit", "the loop over the alert's labels can stop early", mu)
-		// in group_by ⇒ copied; group_by_all ⇒ copied
-		o.Check(!loopBackWithout(o, l, isMapUpdate, e.CutContradicting(inBy)), "by-forced", "a label named in group_by can be left out of the group labels", mu)
-		o.Check(!loopBackWithout(o, l, isMapUpdate, e.CutContradicting(all)), "all-forced", "with group_by: ['...'] a label can be left out of the group labels", mu)
+		// bulk copies of the alert's labels are only right for '...'
+		var bulk []ssa.Instruction
+		for _, c := range e.Calls(fn, "~maps\\.(Copy|Clone)") {
+			n++
+			bulk = append(bulk, c)
+			o.Site(c, calleeName(c.Common()))
+			src := e.Arg(c, len(c.Common().Args)-1)
+			o.Check(regexpMatch(labels, src), "copy-shape", "a bulk copy must copy the alert's labels, copies "+src, c)
+			o.Guarded(c, "copy-guard", "copying every label into the group labels", all)
+			if calleeName(c.Common()) == "maps.Copy" {
+				dst := c.Common().Args[0]
+				for {
+					if ct, ok := dst.(*ssa.ChangeType); ok {
+						dst = ct.X
+						continue
+					}
+					break
+				}
+				_, fresh := dst.(*ssa.MakeMap)
+				o.Check(fresh, "copy-target", "group labels must be built in a fresh map", c)
+				written[dst] = true
+			} else {
+				written[c.(*ssa.Call)] = true
+			}
+		}
+		o.Require(n >= 1, "no-copy", "getGroupLabels copies nothing", nil)
+		// completeness: per selection mode there is a loop (or bulk copy) that cannot skip a selected name
+		covered := func(assume LitM, mode string) bool {
+			cut := e.CutContradicting(assume)
+			r := (&Walk{Fn: fn, Cut: cut}).FromEntry()
+			for _, bc := range bulk {
+				if r.Has(bc) && len((&Walk{Fn: fn, Cut: cut, Barrier: IsInstr(bc)}).FromEntry().Returns()) == 0 {
+					return true
+				}
+			}
+			for _, l := range e.Loops(fn) {
+				if !r.Block[l.Header.Index] {
+					continue
+				}
+				coll, kind := e.RangeOver(l)
+				if kind != "iter" || len(e.EarlyExits(l)) != 0 {
+					continue
+				}
+				var sel LitM
+				switch {
+				case regexpMatch(labels, coll) && mode == "all":
+					sel = all
+				case regexpMatch(labels, coll) && mode == "by":
+					sel = LRe(groupBy+`\[`+overLabels+`#1\]#1`, true)
+				case regexpMatch(groupBy, coll) && mode == "by":
+					sel = LRe(labels+`\[`+overBy+`#1\]#1`, true)
+				default:
+					continue
+				}
+				// the loop is entered on every path of this mode, and a selected name is never skipped
+				bi, ok := l.BodyEntry()
+				if !ok {
+					continue
+				}
+				entered := len((&Walk{Fn: fn, Cut: cut, Barrier: func(in ssa.Instruction) bool { return in == l.Header.Instrs[0] }}).FromEntry().Returns()) == 0
+				_ = bi
+				if entered && !loopBackWithout(o, l, isMapUpdate, e.CutContradicting(sel, assume)) {
+					return true
+				}
+			}
+			return false
+		}
+		o.Check(covered(all.Neg(), "by"), "by-forced", "a label named in group_by can be left out of the group labels", fnFirst(fn))
+		o.Check(covered(all, "all"), "all-forced", "with group_by: ['...'] a label can be left out of the group labels", fnFirst(fn))
 		for _, ret := range (&Walk{Fn: fn}).FromEntry().Returns() {
-			o.Check(ret.Results[0] == mu.Map, "result", "the returned set must be the one that was filled", ret)
+			ok := false
+			for _, v := range e.ValsUnder(nil, ret.Results[0]) {
+				if written[v] {
+					ok = true
+				} else {
+					ok = false
+					break
+				}
+			}
+			o.Check(ok, "result", "the returned set must be the one that was filled", ret)
 		}
 		o.MinSites(1)
 	})
